@@ -165,3 +165,32 @@ decreasing_by
   exact unvisited_cons_lt g path msg (mem_gkeys_of_glookup g msg ss hl) hp
 
 end Sebuf
+
+namespace Sebuf
+
+/-! ### how much the unguarded mock recursion emits
+
+`generateMockFieldAssignments` re-emits the assignments of a message type once per PATH that
+reaches it, so on a DAG-shaped response type the emitted text is the size of the unfolded tree.
+`mockWork` computes that size (saturating at `cap`) by `|g|` rounds of relaxation — polynomial,
+unlike the recursion it measures. -/
+
+def workOf (sz : List (Str × Nat)) (n : Str) : Nat := (sz.lookup n).getD 1
+
+def workStep (g : Graph) (cap : Nat) (sz : List (Str × Nat)) : List (Str × Nat) :=
+  g.map fun p => (p.1, min cap (1 + (p.2.map (workOf sz)).sum))
+
+def workRounds (g : Graph) (cap : Nat) : Nat → List (Str × Nat) → List (Str × Nat)
+  | 0, sz => sz
+  | k + 1, sz => workRounds g cap k (workStep g cap sz)
+
+/-- emitted assignment blocks for a response of type `root` (≥ `cap` means "at least cap"). -/
+def mockWork (g : Graph) (cap : Nat) (root : Str) : Nat :=
+  workOf (workRounds g cap g.length (g.map fun p => (p.1, 1))) root
+
+/-- a chain of `d` levels in which every level refers to the next one twice. -/
+def diamond : Nat → Graph
+  | 0 => [([Char.ofNat 48], [])]
+  | d + 1 => ((Char.ofNat (49 + d)) :: [], [[Char.ofNat (48 + d)], [Char.ofNat (48 + d)]]) :: diamond d
+
+end Sebuf
